@@ -20,7 +20,10 @@
 (*   budget    remaining injected events (Fault or Cancel); cancelled       *)
 (*   exdev     staging directory on another device (staged renames answer   *)
 (*             EXDEV); owner = a default owner is configured (SetPermissions*)
-(*             on a fresh symbolic link issues fchownat)                    *)
+(*             issues fchownat before touching the mode: ChownFile /       *)
+(*             ChownDir / ChownTemp / ChownLink); norn2 = renameat2 is      *)
+(*             unavailable (ENOSYS / ENOTSUP), so non-replacing renames     *)
+(*             take the fallback: probe the target, then plain renameat     *)
 (*   edited    paths modified by ExternalEdit between scan and transition;  *)
 (*   before    the disk when the transition starts (after the edits)        *)
 (*                                                                          *)
@@ -68,15 +71,16 @@ Start(disk, plan, exdev, owner, miss) ==
   [disk |-> disk, miss |-> miss, tree0 |-> disk, target |-> Nil, elog |-> <<>>, cache |-> CacheOf(disk), plan |-> plan, i |-> 1, pc |-> "start",
    w |-> NoWalk, lf |-> NoLeaf, stk |-> <<>>, ret |-> "none", held |-> Nil,
    results |-> <<>>, problems |-> {}, missing |-> FALSE, ops |-> 0,
-   budget |-> Budget, cancelled |-> FALSE, exdev |-> exdev, owner |-> owner,
+   budget |-> Budget, cancelled |-> FALSE, exdev |-> exdev, owner |-> owner, norn2 |-> FALSE,
    edited |-> {}, before |-> disk, fkind |-> "none"]
 
 Init == \E disk \in DiskTrees, target \in TargetTrees :
           LET plan == PlanFor(disk, target) IN
           /\ plan # <<>>
           /\ \E exdev \in (IF PlanCreates(plan, "file") THEN BOOLEAN ELSE {FALSE}),
-                owner \in (IF PlanCreates(plan, "link") THEN BOOLEAN ELSE {FALSE}) :
-               s = [Start(disk, plan, exdev, owner, AnyMissing) EXCEPT !.target = target]
+                owner \in BOOLEAN,
+                norn2 \in (IF PlanCreates(plan, "file") THEN BOOLEAN ELSE {FALSE}) :
+               s = [Start(disk, plan, exdev, owner, AnyMissing) EXCEPT !.target = target, !.norn2 = norn2]
 
 \* ------------------------------------------------------------ primitives
 Problem(t, path) == [t EXCEPT !.problems = @ \cup {path}]
@@ -194,7 +198,7 @@ StatLeaf ==
   /\ LET ok == /\ s.lf.path \in DOMAIN s.cache     \* checked before the stat; no primitive if absent
                /\ FileAsExpected(s, s.lf.path, IF s.lf.op = "swap" THEN s.plan[s.i].old ELSE s.lf.exp)
          next == IF s.lf.op = "rmfile" THEN [s EXCEPT !.lf.phase = "unlink"]
-                 ELSE IF s.plan[s.i].old.d = s.plan[s.i].new.d THEN [s EXCEPT !.lf.phase = "chmod"]
+                 ELSE IF s.plan[s.i].old.d = s.plan[s.i].new.d THEN [s EXCEPT !.lf.phase = IF s.owner THEN "chownfile" ELSE "chmod"]
                  ELSE [s EXCEPT !.lf.phase = "chmodstaged"]
      IN IF s.lf.path \notin DOMAIN s.cache THEN s' = LeafReturn(s, TRUE)
         ELSE s' \in Prim(s, "stat", IF ok THEN next ELSE LeafReturn(s, TRUE), LeafReturn(s, TRUE))
@@ -212,7 +216,11 @@ Unlink ==
                  IF OnDisk(s).k \in {"file", "link", "untracked"} THEN LeafReturn(DiskSet(s, s.lf.path, Nil), FALSE)
                  ELSE LeafReturn(s, TRUE),
                  LeafReturn(s, TRUE))
-\* swapFile with equal digests: parent.SetPermissions(name, ownership, mode)
+\* swapFile with equal digests: parent.SetPermissions(name, ownership, mode) =
+\* fchownat (if an owner is configured), then the mode bits
+ChownFile ==
+  /\ s.pc = "leaf" /\ s.lf.phase = "chownfile"
+  /\ s' \in Prim(s, "chownfile", [s EXCEPT !.lf.phase = "chmod"], LeafReturn(s, TRUE))
 ChmodLeaf ==
   /\ s.pc = "leaf" /\ s.lf.phase = "chmod"
   /\ LET n == OnDisk(s) IN
@@ -224,6 +232,7 @@ ChmodLeaf ==
 \* findAndMoveStagedFileIntoPlace.  The staged file may be missing (the
 \* provider does not guarantee existence): an environment choice per file.
 Replace(t) == t.lf.op = "swap"
+Fallback(t) == t.norn2 /\ ~Replace(t)
 MissingReturn(t) == LeafReturn([t EXCEPT !.missing = TRUE], TRUE)
 Wanted(t) == DF(t.lf.exp.d, t.lf.exp.x, VNew)
 MayExist(t) == t.miss.any \/ t.lf.path \notin t.miss.set
@@ -237,19 +246,37 @@ RenameStaged ==     \* filesystem.Rename(nil, stagedPath, parent, name, replace)
   /\ LET there == OnDisk(s)
          fits == IF Replace(s) THEN there.k # "dir" ELSE there = Nil    \* EISDIR / EEXIST otherwise
      IN s' \in Prim(s, "renamestaged",
-                    IF s.exdev THEN [s EXCEPT !.lf.phase = "openstaged"]
+                    IF Fallback(s) THEN [s EXCEPT !.lf.phase = "probestaged"]       \* renameat2 answered ENOSYS / ENOTSUP
+                    ELSE IF s.exdev THEN [s EXCEPT !.lf.phase = "openstaged"]
                     ELSE IF fits THEN LeafReturn(DiskSet(s, s.lf.path, Wanted(s)), FALSE)
                     ELSE LeafReturn(s, TRUE),
                     LeafReturn(s, TRUE))
                \cup (IF s.exdev \/ ~s.miss.any THEN {} ELSE {[MissingReturn(s) EXCEPT !.ops = s.ops + 1]})   \* vanished meanwhile
+\* the non-replacing fallback of filesystem.Rename: targetDirectory.ReadContentMetadata(target) ...
+ProbeStaged ==
+  /\ s.pc = "leaf" /\ s.lf.phase = "probestaged"
+  /\ s' \in Prim(s, "probe",
+                 IF OnDisk(s) = Nil THEN [s EXCEPT !.lf.phase = "renameatstaged"] ELSE LeafReturn(s, TRUE),   \* os.ErrExist
+                 LeafReturn(s, TRUE))
+\* ... then plain renameat, which would replace whatever non-directory is there
+RenameAtStaged ==
+  /\ s.pc = "leaf" /\ s.lf.phase = "renameatstaged"
+  /\ s' \in Prim(s, "renameat",
+                 IF s.exdev THEN [s EXCEPT !.lf.phase = "openstaged"]
+                 ELSE IF OnDisk(s).k # "dir" THEN LeafReturn(DiskSet(s, s.lf.path, Wanted(s)), FALSE)
+                 ELSE LeafReturn(s, TRUE),
+                 LeafReturn(s, TRUE))
 OpenStaged ==       \* os.Open(stagedPath): the staged file may have vanished
   /\ s.pc = "leaf" /\ s.lf.phase = "openstaged"
   /\ s' \in {[s EXCEPT !.lf.phase = "createtemp"]} \cup (IF s.miss.any THEN {MissingReturn(s)} ELSE {})
 CreateTemp ==       \* parent.CreateTemporaryFile
   /\ s.pc = "leaf" /\ s.lf.phase = "createtemp"
-  /\ s' \in Prim(s, "createtemp", [s EXCEPT !.lf.phase = "chmodtemp"], LeafReturn(s, TRUE))
+  /\ s' \in Prim(s, "createtemp", [s EXCEPT !.lf.phase = IF s.owner THEN "chowntemp" ELSE "chmodtemp"], LeafReturn(s, TRUE))
 \* io.CopyBuffer writes through file handles (no injectable primitive); then
-ChmodTemp ==        \* parent.SetPermissions(temporaryName, ...); on failure the temporary is removed
+ChownTemp ==        \* parent.SetPermissions(temporaryName, ...): fchownat first; on failure the temporary is removed
+  /\ s.pc = "leaf" /\ s.lf.phase = "chowntemp"
+  /\ s' \in Prim(s, "chowntemp", [s EXCEPT !.lf.phase = "chmodtemp"], LeafReturn(s, TRUE))
+ChmodTemp ==        \* ... then the mode bits; on failure the temporary is removed
   /\ s.pc = "leaf" /\ s.lf.phase = "chmodtemp"
   /\ s' \in Prim(s, "setpermissions", [s EXCEPT !.lf.phase = "renametemp"], LeafReturn(s, TRUE))
 RenameTemp ==       \* filesystem.Rename(parent, temporaryName, parent, name, replace); removes the temporary on failure
@@ -257,9 +284,20 @@ RenameTemp ==       \* filesystem.Rename(parent, temporaryName, parent, name, re
   /\ LET there == OnDisk(s)
          fits == IF Replace(s) THEN there.k # "dir" ELSE there = Nil
      IN s' \in Prim(s, "renametemp",
-                    IF fits THEN LeafReturn(DiskSet(s, s.lf.path, Wanted(s)), FALSE)    \* os.Remove(stagedPath): result ignored
+                    IF Fallback(s) THEN [s EXCEPT !.lf.phase = "probetemp"]
+                    ELSE IF fits THEN LeafReturn(DiskSet(s, s.lf.path, Wanted(s)), FALSE)    \* os.Remove(stagedPath): result ignored
                     ELSE LeafReturn(s, TRUE),
                     LeafReturn(s, TRUE))
+ProbeTemp ==
+  /\ s.pc = "leaf" /\ s.lf.phase = "probetemp"
+  /\ s' \in Prim(s, "probe",
+                 IF OnDisk(s) = Nil THEN [s EXCEPT !.lf.phase = "renameattemp"] ELSE LeafReturn(s, TRUE),
+                 LeafReturn(s, TRUE))
+RenameAtTemp ==
+  /\ s.pc = "leaf" /\ s.lf.phase = "renameattemp"
+  /\ s' \in Prim(s, "renameat",
+                 IF OnDisk(s).k # "dir" THEN LeafReturn(DiskSet(s, s.lf.path, Wanted(s)), FALSE) ELSE LeafReturn(s, TRUE),
+                 LeafReturn(s, TRUE))
 
 \* createSymbolicLink (portable mode accepted the target: C16's subject)
 Symlink ==          \* parent.CreateSymbolicLink
@@ -366,10 +404,14 @@ MkDir ==            \* parent.CreateDirectory(name)
   /\ s.pc = "dir" /\ Top(s).f = "mk" /\ Top(s).phase = "mkdir"
   /\ LET fr == Top(s) IN
      s' \in Prim(s, "mkdir",
-                 IF At(s.disk, fr.path) = Nil THEN SetTop(DiskSet(s, fr.path, D(<<>>)), [fr EXCEPT !.phase = "chmod"])
+                 IF At(s.disk, fr.path) = Nil THEN SetTop(DiskSet(s, fr.path, D(<<>>)), [fr EXCEPT !.phase = IF s.owner THEN "chown" ELSE "chmod"])
                  ELSE MkReturn(Problem(s, fr.path), Nil),
                  MkReturn(Problem(s, fr.path), Nil))
-MkChmod ==          \* parent.SetPermissions(name, ownership, directoryMode)
+MkChown ==          \* parent.SetPermissions(name, ownership, directoryMode): fchownat first ...
+  /\ s.pc = "dir" /\ Top(s).f = "mk" /\ Top(s).phase = "chown"
+  /\ LET fr == Top(s) IN
+     s' \in Prim(s, "chowndir", SetTop(s, [fr EXCEPT !.phase = "chmod"]), MkReturn(Problem(s, fr.path), D(<<>>)))
+MkChmod ==          \* ... then the mode bits
   /\ s.pc = "dir" /\ Top(s).f = "mk" /\ Top(s).phase = "chmod"
   /\ LET fr == Top(s) IN
      s' \in Prim(s, "setpermissions",
@@ -466,11 +508,12 @@ Done == s.pc = "done" /\ UNCHANGED s
 
 \* the code's own steps (no injected event, no external edit)
 Steps == \/ Begin \/ Loop \/ OpenRootParent \/ ListRootParent \/ OpenRoot \/ ListNames \/ OpenChild \/ ListLeaf
-         \/ StatLeaf \/ ReadLink \/ Unlink \/ ChmodLeaf
-         \/ ChmodStaged \/ RenameStaged \/ OpenStaged \/ CreateTemp \/ ChmodTemp \/ RenameTemp
+         \/ StatLeaf \/ ReadLink \/ Unlink \/ ChownFile \/ ChmodLeaf
+         \/ ChmodStaged \/ RenameStaged \/ ProbeStaged \/ RenameAtStaged \/ OpenStaged \/ CreateTemp
+         \/ ChownTemp \/ ChmodTemp \/ RenameTemp \/ ProbeTemp \/ RenameAtTemp
          \/ Symlink \/ ChownLink
          \/ RemoveDispatch \/ RmOpen \/ RmList \/ RmIter \/ RmFinish
-         \/ CreateDispatch \/ MkDir \/ MkChmod \/ MkOpen \/ MkIter
+         \/ CreateDispatch \/ MkDir \/ MkChown \/ MkChmod \/ MkOpen \/ MkIter
          \/ SwapDispatch
 Next == Steps \/ Cancel \/ ExternalEdit \/ CreateEdit \/ StaleEdit \/ DeleteInside \/ Done
 Spec == Init /\ [][Next]_s
